@@ -180,6 +180,13 @@ class TorchBackend(BaseBackend):
         then DDE simulation on the torch backend should use ``solver='scipy'``
         (see :meth:`_solve_scipy_dde` below).
         """
+        # the history of delayed variables cannot be updated here (see above): refuse instead of integrating a delayed
+        # model against a history that never leaves the initial state
+        from ..base.base_backend import DDEHistory
+        if len(args) > 0 and isinstance(args[0], DDEHistory):
+            raise NotImplementedError("The torch backend does not support solver='euler' for models with delayed terms "
+                                      "(past(x, tau) / x(t-tau)). Please use solver='scipy' instead.")
+
         # preparations for fixed step-size integration
         idx = 0
         steps = int(np.round(T / dt))
